@@ -6,9 +6,9 @@
    Stage                                   reads                                    code
    -------------------------------------------------------------------------------------------------------------
    dst_stage      DST normalisation idx    local hours of the rows of each date,    _get_dst_indices 1409-1442
-                                           + (CountObserved, the code as it is)     counts["observed"] == 23 / 25
-                                           the NUMBER OF NON-NULL `observed` CELLS  (count() skips NaN)
-                                           of each date
+                                           + (count_rows = false, the code as it    counts["observed"] == 23 / 25
+                                           is) the NUMBER OF NON-NULL `observed`    (count() skips NaN)
+                                           CELLS of each date
    cluster_stage  temporal clusters        stored table, (month, weekday) of rows;  correct_missing_temporal_clusters
                                            when a combination is not in the table:  612-714
                                            `observed` decides the branch and, in
@@ -23,7 +23,7 @@
    transform_dst  back to the real clock   predictions + DST indices                1445-1477
    reindex        one row per input stamp  index                                    410-416
 
-   `observed` is therefore read in exactly two places (dst_stage under CountObserved, cluster_stage when a
+   `observed` is therefore read in exactly two places (dst_stage when count_rows = false, cluster_stage when a
    combination is missing); `observed_norm` (845-848) is computed but is not an input of X at predict time.
 
    The DST stages are the definitions of Model/Dst.v (property C06, tied to the code by C06's correspondence);
@@ -33,10 +33,12 @@ From Coq Require Import ZArith List Bool Arith.
 From V Require Import Model.Dst.
 Import ListNotations.
 
-(* how the rows of a date are counted when looking for 23/25-hour days *)
-Inductive dst_policy :=
-| CountObserved    (* the code as it is: df.groupby(date).count()["observed"] — non-null usage cells *)
-| CountRows.       (* the proposed repair (/var/tmp/proposed-fixes/C05-1.diff): rows of the date *)
+(* how the rows of a date are counted when looking for 23/25-hour days is a switch of Model/Dst.v ([policy]):
+     count_rows = false   the code as it is: df.groupby(date).count()["observed"] — non-null usage cells
+     count_rows = true    the proposed repair (/var/tmp/proposed-fixes/C05-1.diff): rows of the date
+   (the other switch, loc_by_mask, is about the label lookup at midnight clock changes: C06's subject) *)
+Definition count_observed : policy := as_coded.
+Definition count_rows_only : policy := {| count_rows := true; loc_by_mask := false |}.
 
 (* what happens to the corrected cluster table at the end of predict *)
 Inductive state_policy :=
@@ -95,18 +97,15 @@ Section Flow.
   Definition obs_usable (fr : frame) : bool := existsb (fun r => is_some (r_obs r)) (all_rows fr).
 
   (* ---------------------------------------------------------------- stage: DST indices *)
-  Definition obs_flag (pol : dst_policy) (r : hrow) : bool :=
-    match pol with CountObserved => is_some (r_obs r) | CountRows => true end.
-  Definition stamp (pol : dst_policy) (r : hrow) : hour_stamp :=
-    {| hs_utc := r_utc r; hs_hour := r_hour r; hs_obs := obs_flag pol r |}.
-  Definition dst_day (pol : dst_policy) (d : hday) : day :=
-    {| d_rows := map (stamp pol) (h_rows d); d_loc := h_loc d |}.
-  Definition dst_stage (pol : dst_policy) (fr : frame) : res dst_indices :=
-    get_dst_indices (map (dst_day pol) fr).
+  Definition stamp (r : hrow) : hour_stamp :=
+    {| hs_utc := r_utc r; hs_hour := r_hour r; hs_obs := is_some (r_obs r) |}.
+  Definition dst_day (d : hday) : day := {| d_rows := map stamp (h_rows d); d_loc := h_loc d |}.
+  Definition dst_stage (pol : policy) (fr : frame) : res dst_indices := get_dst_indices pol (map dst_day fr).
 
   (* the only way the count enters _get_dst_indices: the two tests `== 23` and `== 25` *)
-  Definition dst_trigger (pol : dst_policy) (d : hday) : bool * bool :=
-    (count_obs (dst_day pol d) =? 23, count_obs (dst_day pol d) =? 25).
+  Definition dst_trigger (pol : policy) (d : hday) : bool * bool :=
+    (day_count pol (dst_day d) =? 23, day_count pol (dst_day d) =? 25).
+  Definition rows_trigger (d : hday) : bool * bool := (length (h_rows d) =? 23, length (h_rows d) =? 25).
 
   Record oracles := {
     (* nearest known load shape (cdist over the hourly means of `observed`): reads the usage column *)
@@ -146,7 +145,7 @@ Section Flow.
     match h_rows d with r :: _ => Some (cat_feat K (r_w r) (row_label ct r)) | [] => None end.
 
   (* ---------------------------------------------------------------- the whole of _predict *)
-  Definition hourly_flow (pol : dst_policy) (t : table) (fr : frame) : res (list (Z * option Y)) :=
+  Definition hourly_flow (pol : policy) (t : table) (fr : frame) : res (list (Z * option Y)) :=
     bind (dst_stage pol fr) (fun idx =>
     bind (cluster_stage t fr) (fun ct =>
     bind (feature_matrix (mean2F K) (ts_matrix ct fr) idx) (fun agg =>
@@ -162,7 +161,7 @@ Section Flow.
     | [] => t
     | fr :: rest => table_after_all sp (table_after sp t fr) rest
     end.
-  Definition hourly_flow_after (pol : dst_policy) (sp : state_policy) (t : table) (history : list frame) (fr : frame) :=
+  Definition hourly_flow_after (pol : policy) (sp : state_policy) (t : table) (history : list frame) (fr : frame) :=
     hourly_flow pol (table_after_all sp t history) fr.
 
   (* ---------------------------------------------------------------- relations used by the theorems *)
@@ -193,3 +192,49 @@ Definition agree {Y} (a b : res (list (Z * option Y))) : Prop :=
   | Err _, Err _ => True
   | _, _ => False
   end.
+
+(* ------------------------------------------------------------------ the calendar repair, concretely
+   (hourly/model.py, else-branch of correct_missing_temporal_clusters):
+     df_temporal_clusters.unstack()      rows: months of the frame, columns: weekdays of the frame, NaN where the
+                                         combination is unknown or does not occur in the frame
+     .ffill(axis=1).bfill(axis=1)        along the weekdays of each month
+     .ffill(axis=0).bfill(axis=0)        then along the months
+     .stack()                            back to (month, weekday)
+   It reads the re-indexed table only.  Offered as the instance of the oracle [repair_by_calendar] that the
+   correspondence uses; the theorems hold for any instance. *)
+Fixpoint insert_z (x : Z) (l : list Z) : list Z :=
+  match l with
+  | [] => [x]
+  | y :: t => if (x =? y)%Z then l else if (x <? y)%Z then x :: l else y :: insert_z x t
+  end.
+Definition sorted_set (l : list Z) : list Z := fold_right insert_z [] l.
+
+Fixpoint ffill (prev : option Z) (l : list (option Z)) : list (option Z) :=
+  match l with
+  | [] => []
+  | x :: t => let v := match x with Some _ => x | None => prev end in v :: ffill v t
+  end.
+Definition bfill (l : list (option Z)) : list (option Z) := rev (ffill None (rev l)).
+Definition fill_line (l : list (option Z)) : list (option Z) := bfill (ffill None l).
+
+Fixpoint transpose (n : nat) (g : list (list (option Z))) : list (list (option Z)) :=
+  match n with
+  | O => []
+  | S k => map (fun r => match r with x :: _ => x | [] => None end) g :: transpose k (map (@tl (option Z)) g)
+  end.
+
+Definition calendar_fill (ct : ctable) : ctable :=
+  let months := sorted_set (map (fun p => fst (fst p)) ct) in
+  let dows := sorted_set (map (fun p => snd (fst p)) ct) in
+  let grid := map (fun m => map (fun d => label_in ct (m, d)) dows) months in
+  let g1 := map fill_line grid in                                        (* axis = 1 *)
+  let g2 := transpose (length months) (map fill_line (transpose (length dows) g1)) in   (* axis = 0 *)
+  let cell (c : combo) : option Z :=
+    match find (fun mr => (fst mr =? fst c)%Z) (combine months g2) with
+    | Some mr => match find (fun dv => (fst dv =? snd c)%Z) (combine dows (snd mr)) with
+                 | Some dv => snd dv
+                 | None => None
+                 end
+    | None => None
+    end in
+  map (fun p => (fst p, cell (fst p))) ct.
